@@ -57,7 +57,7 @@ def run(ck):
         bad1 = os.path.join(tmp, 'bad1'); open(bad1, 'wb').write(b'CLUSTAL W\n\nx\n'); bad2 = os.path.join(tmp, 'bad2'); open(bad2, 'wb').write(b'>only\nACGT\n')
         pool['bad'] = [bad1, bad2, os.path.join(tmp, 'missing')]
         # big inputs (k-means path, parallel regions) a few times in the thorough tier
-        if not quick:
+        if True:
             root = gen.rand_seq(rng, gen.DNA, 40)
             p = os.path.join(tmp, 'big.fa'); open(p, 'w').write(gen.fasta(['b%d' % j for j in range(120)], [gen.mutate(rng, root, gen.DNA, 10, 6) for _ in range(120)])); pool['dna'].append(p)
         pens = [gen.NG, gen.NG, gen.NG, gen.fbits(0.0), gen.fbits(2.0), gen.fbits(8.0), gen.fbits(30.0)]
@@ -88,6 +88,10 @@ def run(ck):
                     h = rng.choice(list(state)) if state else h
                     wcount[0] += 1
                     ops.append('W%d:%s:%s' % (h, rng.choice(['fasta', 'msf', 'clu']), os.path.join(tmp, 'w%d' % wcount[0])))
+                elif r < 74:
+                    h = rng.choice(list(state)) if state else h
+                    wcount[0] += 1           # the same call writing to stdout (outfile == NULL)
+                    ops.append('O%d:%s:%s' % (h, rng.choice(['fasta', 'msf', 'clu']), os.path.join(tmp, 'o%d' % wcount[0])))
                 elif r < 80:
                     a, b = rng.below(4), rng.below(4)
                     if a != b: ops.append('C%d:%d' % (a, b))
@@ -104,6 +108,11 @@ def run(ck):
                 ops += ['R0:' + f, 'R1:' + f, 'A0:4:5:%d:%d:%d' % (gen.NG, gen.NG, gen.NG), 'A1:1:0:%d:%d:%d' % (gen.fbits(2.0), gen.NG, gen.NG), 'C0:1']
                 ops = ['F0', 'F1'] + ops[-5:] if rng.chance(1, 2) else ops[:-5] + ['F0', 'F1'] + ops[-5:]
             hists.append(ops)
+        # >= 100 sequences (bisecting k-means, its own allocations) and two writes to stdout in a row
+        big = os.path.join(tmp, 'big.fa')
+        hists.append(['R0:' + big, 'A0:4:5:%d:%d:%d' % (gen.NG, gen.NG, gen.NG), 'O0:clu:' + os.path.join(tmp, 'obig1'), 'O0:fasta:' + os.path.join(tmp, 'obig2'), 'F0'])
+        hists.append(['R1:' + pool['protein'][0], 'A1:1:5:%d:%d:%d' % (gen.NG, gen.NG, gen.NG), 'O1:msf:' + os.path.join(tmp, 'op1'), 'R2:' + big, 'A2:1:5:%d:%d:%d' % (gen.NG, gen.NG, gen.NG),
+                      'O2:fasta:' + os.path.join(tmp, 'op2'), 'O1:fasta:' + os.path.join(tmp, 'op3'), 'F1', 'F2'])
         # ---- all histories in ONE process -----------------------------------------------------------------------
         lines = ['hist ' + ' '.join(ops) for ops in hists]
         if os.environ.get('KV_KEEP_TMP'):
@@ -124,8 +133,8 @@ def run(ck):
             # output paths of W calls are rewritten so that the fresh process does not clobber the history's files
             # (same base name: the MSF header quotes it)
             fd = os.path.join(tmp, 'fresh%d_%d' % (hi, j))
-            if any(op[0] == 'W' for op in sl): os.makedirs(fd, exist_ok=True)
-            sl2 = [op if op[0] != 'W' else op.rsplit(':', 1)[0] + ':' + os.path.join(fd, os.path.basename(op.rsplit(':', 1)[1])) for op in sl]
+            if any(op[0] in 'WO' for op in sl): os.makedirs(fd, exist_ok=True)
+            sl2 = [op if op[0] not in 'WO' else op.rsplit(':', 1)[0] + ':' + os.path.join(fd, os.path.basename(op.rsplit(':', 1)[1])) for op in sl]
             p = subprocess.run([kvh], input=('hist ' + ' '.join(sl2) + '\n').encode(), stdout=subprocess.PIPE, stderr=subprocess.DEVNULL, timeout=600)
             out = p.stdout.decode('latin-1').split()
             return out[len(sl2) - 1] if len(out) >= len(sl2) else 'CRASH rc=%d' % p.returncode
